@@ -96,6 +96,7 @@ import (
 	"fmt"
 	"sort"
 	"strings"
+	"unicode/utf8"
 	"unsafe"
 	_ "unsafe" // for linkname hack
 
@@ -552,11 +553,17 @@ func toProto(fdesc protoreflect.FieldDescriptor, v starlark.Value) (protoreflect
 		}
 
 	case protoreflect.StringKind:
-		if s, ok := starlark.AsString(v); ok {
-			return protoreflect.ValueOfString(s), nil
-		} else if b, ok := v.(starlark.Bytes); ok {
+		s, ok := starlark.AsString(v)
+		if b, isBytes := v.(starlark.Bytes); isBytes {
 			// TODO(adonovan): allow bytes for string? Not friendly to a Java port.
-			return protoreflect.ValueOfString(string(b)), nil
+			s, ok = string(b), true
+		}
+		if ok {
+			// A proto3 string must be valid UTF-8, otherwise the message cannot be marshalled.
+			if fdesc.ParentFile().Syntax() == protoreflect.Proto3 && !utf8.ValidString(s) {
+				return noValue, fmt.Errorf("invalid UTF-8 in string field")
+			}
+			return protoreflect.ValueOfString(s), nil
 		}
 
 	case protoreflect.BytesKind:
